@@ -26,7 +26,7 @@ static size_t ref_der(const struct tval *v, uint8_t *out, size_t cap) {
     if(v->has_x) der_bool_tagged(&b, CL_CTX, 1, v->x);
     if(v->has_y) der_int_tagged(&b, CL_CTX, 2, v->y);
     struct rbuf o = { out, 0, cap };
-    der_tag(&o, CL_UNIV | CONSTRUCTED, 16); der_len(&o, b.n); rb_puts(&o, body, b.n);
+    x_constructed(&o, CL_UNIV, 16, body, b.n);
     return o.n;
 }
 static size_t ref_uper(const struct tval *v, uint8_t *out, size_t cap) {
